@@ -64,7 +64,10 @@ def cases(draw, max_chroms=3, max_bins=5):
             "balance": balance, "divisive": draw(st.sampled_from([None, None, True, False])),
             "chunksize": draw(st.sampled_from([1, 3, 10**7])), "via": draw(st.sampled_from(["slice", "slice", "fetch"])),
             # history: the Cooler object exists (and has been queried) before the weight columns are written / replaced
-            "late_weights": draw(st.booleans())}
+            # (True: raw HDF5 write as balance_cooler(store=True) does; "append*": through cooler.create.append, whole
+            # columns or chunked=True with the column cut at generated points)
+            "late_weights": draw(st.sampled_from([False, False, True, "append", "append-chunked", "append-chunked"])),
+            "append_cuts": sorted(draw(st.lists(st.integers(0, n), min_size=1, max_size=3)))}
 
 
 def check_balanced(case, ctx: Ctx):
@@ -90,10 +93,22 @@ def check_balanced(case, ctx: Ctx):
             clr = cooler.Cooler(path)
             _ = clr.matrix(balance=next(iter(W)), sparse=True)[:]
             _ = clr.matrix(balance=next(iter(W)))[0:n, 0:n]
-            with h5py.File(path, "r+") as f:
-                for k, v in W.items():
-                    del f["bins"][k]
-                    f["bins"].create_dataset(k, data=v, compression="gzip", compression_opts=6)
+            if case["late_weights"] is True:
+                with h5py.File(path, "r+") as f:
+                    for k, v in W.items():
+                        del f["bins"][k]
+                        f["bins"].create_dataset(k, data=v, compression="gzip", compression_opts=6)
+            elif case["late_weights"] == "append":
+                from cooler.create import append
+
+                call("cooler.create.append(bins, columns, force=True)", append, path, "bins", dict(W), force=True)
+            else:
+                from cooler.create import append
+
+                cuts = [0, *case.get("append_cuts", [n // 2]), n]
+                chunks = {k: [v[a:b] for a, b in zip(cuts[:-1], cuts[1:]) if b > a] for k, v in W.items()}
+                call(f"cooler.create.append(bins, columns in chunks cut at {cuts}, chunked=True, force=True)", append, path, "bins",
+                     chunks, chunked=True, force=True)
         else:
             call("create", create_from_model, path, bt, rows, symmetric, bins_extra=W, h5opts={"compression": None})
             clr = cooler.Cooler(path)
@@ -147,7 +162,7 @@ def check_balanced(case, ctx: Ctx):
     nt = (i0, i1) != (j0, j1) and has and nanw
     ctx.record(case, nt, ["balanced", "out=" + out, "name=" + name, "divisive=" + str(case["divisive"]),
                           "same-range" if (i0, i1) == (j0, j1) else "diff-range-same-len" if i1 - i0 == j1 - j0 else "diff-len",
-                          "sym" if symmetric else "square", "late-weights" if case.get("late_weights") else "weights-at-creation"])
+                          "sym" if symmetric else "square", "weights=" + str(case.get("late_weights") or "at-creation")])
 
 
 CHECKS = {"balanced": check_balanced}
